@@ -77,7 +77,10 @@ func sameVal(a, b mval) bool {
 // displayNumberCanonical is the canonical display form used where the harness itself must print a number
 // that the script then shows (integral without decimal point, otherwise shortest round-trip decimal).
 func displayNumberCanonical(f float64) string {
-	if f == math.Trunc(f) && math.Abs(f) < 1e15 {
+	if f == 0 {
+		return "0" // both zeros
+	}
+	if f == math.Trunc(f) && math.Abs(f) <= 1<<53 {
 		return strconv.FormatFloat(f, 'f', 0, 64)
 	}
 	return strconv.FormatFloat(f, 'g', -1, 64)
